@@ -46,6 +46,11 @@ from harness import parser_replay
 pl = {"kind": "tm", "lines": [{"k": "initial", "t": ["p"]}, {"k": "kw", "t": ["accept", "x-1"]},
       {"k": "tr", "t": ["p", "p", ["ok", False, "a", "B", "R"]]}], "err": "bad_state_label", "result": {"Q": []}}
 out += [e for e in parser_replay.replay_line(pl) if e["op"] == "parser_replay"]
+from harness import schedule_replay
+sl = {"algo": "path", "R": ["s0"], "f": "s2", "edges": [["s0", "s0"], ["s0", "s1"], ["s1", "s0"], ["s1", "s2"]],
+      "final": ["s0", "s1", "s2"], "schedule": [["pop", "s0", "s0"], ["edge", "s0", "s1"], ["edge", "s0", "s0"],
+                                                ["pop", "s1", "s1"], ["edge", "s1", "s0"], ["edge", "s1", "s2"]]}
+out += [e for e in schedule_replay.replay_line(sl) if e["op"] == "path_trace"]
 print(json.dumps(out))
 ''' % common.VERIF
     p = subprocess.run([common.PY, "-c", code], env=common.worker_env(0), stdout=subprocess.PIPE,
@@ -94,6 +99,8 @@ def corrupt(e):
         del c["pops"][0]                     # one hook event removed
     elif op == "rip_trace":
         del c["rips"][0]                     # one hook event removed
+    elif op == "path_trace":
+        del c["steps"][0]                    # the first pop of the (forced) path search removed
     elif op == "roundtrip":
         tr = [i for i, l in enumerate(c.get("plines", [])) if l["k"] == "tr"]
         if not tr:
